@@ -115,3 +115,17 @@ reg('C20', True, 'other',
     'Panics inside third-party crates, allocation failure, I/O and panics conditional on an invalid/non-finite input state '
     '(tabled preconditions) are not decided.',
     'call-graph reachability + per-site discharge (interval abstract interpretation, dominance, dataflow) + precondition table')
+
+reg('C09', True, 'other',
+    'Ownership/effect facts, none of which needs a schedule to be explored: type graph from both state types and the three '
+    'shape types (74 type nodes incl. nalgebra storage) contains no Rc/Arc/raw pointer/reference/Cell/RefCell/Mutex/atomic, the '
+    'only interior-mutable leaf is SharedValue.value: UnsafeCell<f64> held inline (two state values cannot alias a cell); no '
+    'static mut / interior-mutable static / thread_local; manual Clone impls (Cell2, OccupiedSite) build every field from the '
+    'same-named field of self and no Clone impl can reach a cell write; each of the 3 rayon closures uses the captured shared '
+    'state only as receiver of Clone::clone and optimises a state it owns (fresh clone / moved-in result); no nondeterminism '
+    'source (thread_rng, from_entropy, SystemTime, env, HashMap, thread ids...) is called from ~100 seeded-path roots; '
+    'from_entropy only under seed==None in the builder; every build() in a closure follows .seed(replica index); seed() stores '
+    'Some(arg). Zero-expected rules are run against a positive-control fixture crate on every run.',
+    'Trusted: rayon calls each closure with the arguments it was given and its max is order-consistent; std Vec/String/Box are '
+    'unique owners. Does not explore schedules (not needed for an ownership argument) and does not decide rayon itself.',
+    'type-graph ownership analysis + effect/call-graph reachability + symbolic clone fidelity + closure capture dataflow')
